@@ -12,6 +12,7 @@ import (
 	"math"
 	"math/big"
 	"regexp"
+	"strconv"
 	"strings"
 
 	"golang.org/x/tools/go/ssa"
@@ -840,13 +841,12 @@ func (fr *frame) matcherCall(c *ssa.Call, fn *ssa.Function, args []Val) (Val, bo
 		if _, err := regexp.Compile(args[0].S); err != nil {
 			return Val{}, false
 		}
-		base := fr.siteName(c)
-		fr.allocate(base)
-		fr.store(Val{K: KPtr, S: base + ".$pat"}, args[0], nil)
+		// a compiled pattern is an immutable object: its identity is the pattern
+		re := Val{K: KPtr, S: regexpObj(args[0].S)}
 		if name == "Compile" {
-			return Val{K: KTuple, Elems: []Val{{K: KPtr, S: base}, {K: KNil}}}, true
+			return Val{K: KTuple, Elems: []Val{re, {K: KNil}}}, true
 		}
-		return Val{K: KPtr, S: base}, true
+		return re, true
 	case pkg == "regexp" && name == "MatchString" && recv == "":
 		if args[0].K == KStr && args[1].K == KStr {
 			if m, err := regexp.MatchString(args[0].S, args[1].S); err == nil {
@@ -858,10 +858,11 @@ func (fr *frame) matcherCall(c *ssa.Call, fn *ssa.Function, args []Val) (Val, bo
 		if args[0].K != KPtr {
 			return Val{}, false
 		}
-		pat := fr.load(args[0].S+".$pat", strT)
-		if pat.K != KStr {
+		patS, isRe := regexpPattern(args[0].S)
+		if !isRe {
 			return Val{}, false
 		}
+		pat := strVal(patS)
 		re, err := regexp.Compile(pat.S)
 		if err != nil || len(args) < 2 || args[1].K != KStr {
 			return Val{}, false
@@ -885,4 +886,16 @@ func (fr *frame) matcherCall(c *ssa.Call, fn *ssa.Function, args []Val) (Val, bo
 		}
 	}
 	return Val{}, false
+}
+
+// regexpObj names the modelled object of a compiled pattern; regexpPattern
+// reads the pattern back from such a name.
+func regexpObj(pattern string) string { return "regexp#" + strconv.Quote(pattern) }
+
+func regexpPattern(path string) (string, bool) {
+	if !strings.HasPrefix(path, "regexp#") {
+		return "", false
+	}
+	s, err := strconv.Unquote(strings.TrimPrefix(path, "regexp#"))
+	return s, err == nil
 }
